@@ -385,7 +385,7 @@ theorem inv_tr {s s' : Sh} {l r : List Th} {t t' : Th} (h : Inv s (l ++ t :: r))
   | ctlSd1 hs =>
     obtain ⟨_, rfl⟩ := sd1_some hs
     exact inv_eff_sd1 (noElem_move h (fun _ => rfl) (fun _ => rfl) trivial) _ rfl rfl rfl rfl rfl rfl rfl
-  | ctlSdAgain hs =>
+  | ctlSdAgain hs _ =>
     exact inv_same (noElem_move h (fun _ => rfl) (fun _ => rfl) trivial) rfl rfl rfl rfl rfl rfl (Nat.le_refl _)
   | ctlRelease =>
     exact inv_same (noElem_move h (fun _ => rfl) (fun _ => rfl) trivial) rfl rfl rfl rfl rfl rfl (Nat.le_refl _)
